@@ -28,22 +28,22 @@ Proof.
   injection E as Eg Ech Erows Ecomps Enn Emg Eti. subst g2 ch2 comps2 nn2 mg2 ti2.
   unfold paris_step. cbn [p_ag p_chain p_rows p_comps p_nn p_hgt p_margin p_ties].
   destruct ch1 as [|node chain].
-  - destruct (ag_size g1) as [|[x s] rest]; cbn [same_outcome strip p_ag p_chain p_rows p_comps p_nn p_margin p_ties];
-      now rewrite Erows.
+  - destruct (ag_size g1) as [|[x s] rest]; unfold same_outcome, strip; cbn [p_ag p_chain p_rows p_comps p_nn p_margin p_ties];
+      congruence.
   - destruct (alookup node (ag_nb g1)) as [row|]; [|reflexivity].
     destruct (filter (fun c => negb (Nat.eqb c node)) (akeys row)) as [|c0 cs] eqn:Enb.
     + destruct (alookup node (ag_size g1)) as [s|]; [|reflexivity].
-      cbn [same_outcome strip p_ag p_chain p_rows p_comps p_nn p_margin p_ties]. now rewrite Erows.
+      unfold same_outcome, strip; cbn [p_ag p_chain p_rows p_comps p_nn p_margin p_ties]. congruence.
     + destruct (nn_search nn1 (map (fun c => (c, similarity R g1 node c)) (c0 :: cs))) as [nn mx].
       destruct chain as [|last chain'].
-      * cbn [same_outcome strip p_ag p_chain p_rows p_comps p_nn p_margin p_ties]. now rewrite Erows.
+      * unfold same_outcome, strip; cbn [p_ag p_chain p_rows p_comps p_nn p_margin p_ties]. congruence.
       * destruct (Nat.eqb last nn).
         -- destruct (alookup node (ag_size g1)) as [s1|]; [|reflexivity].
            destruct (alookup nn (ag_size g1)) as [s2|]; [|reflexivity].
            destruct (ag_merge R g1 node nn) as [g'|e]; [|reflexivity].
-           cbn [same_outcome strip p_ag p_chain p_rows p_comps p_nn p_margin p_ties].
-           rewrite !map_app, Erows. reflexivity.
-        -- cbn [same_outcome strip p_ag p_chain p_rows p_comps p_nn p_margin p_ties]. now rewrite Erows.
+           unfold same_outcome, strip; cbn [p_ag p_chain p_rows p_comps p_nn p_margin p_ties].
+           rewrite !map_app. cbn [map r_left r_right r_size fst snd]. rewrite Erows. reflexivity.
+        -- unfold same_outcome, strip; cbn [p_ag p_chain p_rows p_comps p_nn p_margin p_ties]. congruence.
 Qed.
 
 Lemma run_clamp_indep R c1 c2 fuel : forall st1 st2, strip st1 = strip st2 ->
